@@ -202,7 +202,7 @@ async fn run_world(sc: H2Scenario, tape: Tape, narrative: bool) -> Out {
 
     // an endpoint that writes without end (far beyond anything the scenario can produce) gets a
     // write error instead of the simulator's memory
-    let plan = SockPlan { write_err_at: Some(48 << 20), ..SockPlan::default() };
+    let plan = SockPlan { write_err_at: Some(6 << 20), ..SockPlan::default() };
     let (srv_end, srv_peer) = new_socket(plan.clone(), tape.clone(), clock.clone());
     let (cli_end, cli_peer) = new_socket(plan, tape.clone(), clock.clone());
     let mut ex = Exec::new();
@@ -348,7 +348,7 @@ async fn run_world(sc: H2Scenario, tape: Tape, narrative: bool) -> Out {
     let is_stalled = |i: usize| sc.reqs[i].policy == Policy::Stalled;
     loop {
         out.steps += 1;
-        if out.steps > 2_000_000 {
+        if out.steps > 250_000 {
             out.stuck = Some("step budget exhausted".into());
             break;
         }
